@@ -443,7 +443,16 @@ func (g *functionGenerator) genInstruction(inst ssa.Instruction) (insts []wat.In
 		insts = append(insts, g.genReturn(inst)...)
 
 	case ssa.Value:
+		// A register that already exists was created by an earlier use (a phi edge or another
+		// forward reference): it is reference counted (retained when read, released when
+		// overwritten and at function exit), so the value stored into it must be pushed with a
+		// retain even inside an rc_disable region.
+		rc_disable := g.module.RcDisable
+		if _, ok := g.locals_map[inst]; ok {
+			g.module.RcDisable = false
+		}
 		s, t := g.genValue(inst)
+		g.module.RcDisable = rc_disable
 		if t != nil && !t.Equal(g.module.VOID) {
 			if v, ok := g.locals_map[inst]; ok {
 				if !v.value.Type().Equal(t) {
@@ -453,7 +462,13 @@ func (g *functionGenerator) genInstruction(inst ssa.Instruction) (insts []wat.In
 			} else {
 				nv := g.addRegister(t)
 				g.locals_map[inst] = valueWrap{value: nv}
-				if g.none_rc_registers != nil && g.none_rc_registers[nv] {
+				if rc_disable {
+					// only the result register of the instruction inside the rc_disable region
+					// is a borrowed (uncounted) register
+					if g.none_rc_registers == nil {
+						g.none_rc_registers = make(map[wir.Value]bool)
+					}
+					g.none_rc_registers[nv] = true
 					s = append(s, nv.EmitPopNoRelease()...)
 				} else {
 					s = append(s, nv.EmitPop()...)
@@ -1708,12 +1723,6 @@ func (g *functionGenerator) addRegister(typ wir.ValueType) wir.Value {
 	name := "$t" + strconv.Itoa(g.cur_local_id)
 	v := wir.NewLocal(name, typ)
 	g.registers = append(g.registers, v)
-	if g.module.RcDisable {
-		if g.none_rc_registers == nil {
-			g.none_rc_registers = make(map[wir.Value]bool)
-		}
-		g.none_rc_registers[v] = true
-	}
 	return v
 }
 
